@@ -622,7 +622,7 @@ var pins = []pin{
 	{"pkg/frame", "uint24Decode"}, {"pkg/frame", "uint24Encode"}, {"pkg/frame", "uint48Decode"}, {"pkg/frame", "uint48Encode"},
 	{"pkg/frame", "V2Frame.IsSigned"}, {"pkg/frame", "V2Frame.GenerateChecksum"}, {"pkg/frame", "V2Frame.GenerateSignature"},
 	{"pkg/frame", "V2Frame.unmarshal"}, {"pkg/frame", "V2Frame.marshalTo"}, {"pkg/frame", "NewV2Key"},
-	{"pkg/frame", "hasEmptyBytes"}, {"pkg/frame", "removeEmptyBytes"}, {"pkg/frame", "Reader.Initialize"}, {"pkg/frame", "Reader.Read"},
+	{"pkg/frame", "Reader.Initialize"}, {"pkg/frame", "Reader.Read"},
 	{"pkg/frame", "encodeMessageInFrame"}, {"pkg/frame", "Writer.Initialize"}, {"pkg/frame", "Writer.WriteMessage"},
 	{"pkg/frame", "Writer.writeFrameAndFill"}, {"pkg/frame", "Writer.Write"}, {"pkg/frame", "Writer.writeFrameInner"}, {"pkg/frame", "Writer.WriteFrame"},
 	{"pkg/frame", "ReadWriter.Initialize"}, {"pkg/frame", "NewReader"}, {"pkg/frame", "NewWriter"},
